@@ -13,6 +13,10 @@ use rayon::prelude::*;
 
 use crate::{run::run_case, text::parse_case_body};
 
+thread_local! {
+    static SEEN_KEYS: std::cell::RefCell<std::collections::HashSet<String>> = Default::default();
+}
+
 fn emit(ctx: &mut Ctx, outs: Vec<run::Outcome>, kind: &str) {
     for o in outs {
         ctx.case(kind, o.nontrivial, &o.op_line, &o.answer);
@@ -20,14 +24,18 @@ fn emit(ctx: &mut Ctx, outs: Vec<run::Outcome>, kind: &str) {
             ctx.count(t);
         }
         for (key, what, detail) in o.fails {
-            ctx.oracle_fail(&key, &what, detail);
+            // one record per failure class, so that a frequent class cannot crowd out another
+            ctx.count(&format!("oracle-fail-class:{}", key.chars().take(70).collect::<String>()));
+            if SEEN_KEYS.with(|s| s.borrow_mut().insert(key.clone())) {
+                ctx.oracle_fail(&key, &what, detail);
+            }
         }
     }
 }
 
-fn run_batch(ctx: &mut Ctx, kind: &str, cases: Vec<text::Case>, with_mock: bool) {
+pub fn run_batch(ctx: &mut Ctx, kind: &str, cases: Vec<text::Case>, with_mock: bool) {
     let outs: Vec<run::Outcome> =
-        cases.par_iter().map(|c| run_case("run", c, with_mock)).collect();
+        cases.par_iter().map(|c| run_case(c, with_mock)).collect();
     emit(ctx, outs, kind);
 }
 
@@ -39,11 +47,15 @@ fn main() {
             if line.is_empty() || line.starts_with('#') {
                 continue;
             }
-            let body = line.strip_prefix("run ").unwrap_or(line);
+            let body = line.strip_prefix("run0 ").or(line.strip_prefix("run ")).unwrap_or(line);
             match parse_case_body(body) {
                 None => println!("unparsable: {line}"),
                 Some(c) => {
-                    let o = run_case("run", &c, std::env::var("H_C18_NOMOCK").is_err());
+                    let o = run_case(&c, std::env::var("H_C18_NOMOCK").is_err());
+                    if std::env::var("H_C18_RAW").is_ok() {
+                        println!("{}\t{}", o.op_line, o.answer);
+                        continue;
+                    }
                     println!("{}\n  => {}", o.op_line, o.answer.replace(" | ", "\n     "));
                     for (_, what, d) in o.fails {
                         println!("  ORACLE-FAIL: {what} {}", d["observed"]);
